@@ -71,11 +71,7 @@ theorem C06_unique_owner (c : PCtx) (pt : String) (f : Sel) (loc loc' : String)
 theorem routeRoot_fold_inv (c : PCtx) (others : List Sel) (pt : String) :
     ∀ (urls : List String) (acc res : List (String × List Sel)),
       (∀ e ∈ acc, e.2 = others.filter (ownerIs c pt e.1) ∧ e.2 ≠ []) →
-      urls.foldlM (fun (acc : List (String × List Sel)) loc =>
-        match filterByLoc c others loc pt with
-        | none => (.error (.err "could not find location (root)") : G _)
-        | some [] => .ok acc
-        | some ss => .ok (acc ++ [(loc, ss)])) acc = .ok res →
+      urls.foldlM (routeStep c others pt) acc = .ok res →
       ∀ e ∈ res, e.2 = others.filter (ownerIs c pt e.1) ∧ e.2 ≠ [] := by
   intro urls
   induction urls with
@@ -85,7 +81,7 @@ theorem routeRoot_fold_inv (c : PCtx) (others : List Sel) (pt : String) :
     subst h; exact hacc
   | cons u us ih =>
     intro acc res hacc h
-    simp only [List.foldlM_cons, bind, Except.bind] at h
+    simp only [List.foldlM_cons, bind, Except.bind, routeStep] at h
     cases hf : filterByLoc c others u pt with
     | none => simp [hf] at h
     | some l =>
@@ -118,16 +114,18 @@ theorem C06_root_once (c : PCtx) (others : List Sel) (pt : String) (entries : Li
     · cases h
     · rename_i base hbase
       have hb := routeRoot_fold_inv c others pt c.tum.urls [] base (by intro e he; cases he) hbase
-      split at h
+      simp only [Except.ok.injEq] at h
+      subst h
+      unfold routeInternal
+      split
       · rename_i x xs hint
-        simp only [Except.ok.injEq] at h; subst h
         intro e he
         simp only [List.mem_append, List.mem_singleton] at he
         rcases he with he | he
         · exact hb e he
         · subst he
           exact ⟨C06_route_char c others internalService pt _ hint, by simp⟩
-      · simp only [Except.ok.injEq] at h; subst h; exact hb
+      · exact hb
 
 /-- **Only root steps carry the operation keyword**: a step formatted as `mutation` (or
     `subscription`) has an empty insertion point; every follow-up lookup is a `query`. -/
